@@ -105,6 +105,17 @@ class Ctx:
     def finish(self, theorems):
         for t in theorems:
             self.obligations.append({"name": t["name"], "kind": "theorem", "ok": t["ok"], "axioms": t["axioms"]})
+        # safety net: a correspondence / certificate family that no longer checks is never silently tolerated.
+        # If the check itself found no failing input (no violation reported) the broken obligation is reported as
+        # a violation with no-failing-input-found, unless a reproduced known finding declares that it explains it.
+        explained = [p for e in self.known_hit.values() for p in e.get("explains_obligations", [])]
+        unexplained = [o for o in self.obligations if not o["ok"] and not any(o["name"].startswith(p) for p in explained)]
+        if unexplained and not self.violations:
+            self.report("obligation-broken:" + "|".join(o["name"][:60] for o in unexplained)[:300],
+                        "obligation(s) no longer check and the search found no concrete failing input: "
+                        + "; ".join(o["name"] + (" [" + str(o.get("detail")) + "]" if o.get("detail") else "") for o in unexplained)[:900],
+                        {"broken_obligations": unexplained, "theorem_or_correspondence": [o["name"] for o in unexplained]},
+                        no_failing_input=True)
         n_ob = len(self.obligations)
         n_ok = sum(1 for o in self.obligations if o["ok"])
         cov = {
